@@ -919,3 +919,96 @@ def uninl(t: Any) -> Any:
     if len(t) == 3 and t[0] == "inl":
         return uninl(t[2])
     return tuple(uninl(x) for x in t)
+
+
+# ----------------------------------------------------------------------------- helper splicing
+SPLICE_ATOMIC = {"get_input_data", "get_max_advance", "advance_progress", "notify_dependencies", "rt_check", "prune_dataflow_cache", "get_progress",
+                 "get_avg_progress", "earliest_pending_step", "connect_interval", "group_path", "update_min", "parse_attrs", "parse_set_triple", "wrap_set",
+                 "merge_all", "merge_existing", "extract_version", "doc_link", "gather_or_cancel", "print_greetings"}
+
+
+def fold_returns(s: Summary) -> Optional[Term]:
+    """Guarded returns folded into one nested conditional value."""
+    rets = list(s.returns)
+    if not rets:
+        return T.NONE
+    common = 0
+    gsets = [r.guards for r in rets]
+    while all(len(g) > common for g in gsets) and len({g[common] for g in gsets}) == 1:
+        common += 1
+    val: Term = T.NONE
+    seq = rets
+    if len(rets[-1].guards) == common:
+        val = rets[-1].term
+        seq = rets[:-1]
+    elif len(rets) >= 2 and len(rets[-1].guards) == common + 1 and any(
+            len(r.guards) > common and T.guard_term(rets[-1].guards[-1]) == T.negate(T.guard_term(r.guards[-1])) for r in rets[:-1]):
+        val = rets[-1].term
+        seq = rets[:-1]
+    for r in reversed(seq):
+        own = [T.guard_term(g) for g in r.guards[common:]]
+        if not own:
+            val = r.term
+            continue
+        cond = own[-1] if len(own) == 1 else ("and", tuple(own))
+        val = ("phi", cond, r.term, val)
+    return val
+
+
+def spliceable(prog: Program, fi: FuncInfo, callee: FuncInfo) -> bool:
+    if callee.is_async or callee.cls is not None or callee.name in SPLICE_ATOMIC or isinstance(callee.node, ast.Lambda):
+        return False
+    # nested helpers of this function, or small module-level helpers of the same module
+    nested = callee.parent is not None and callee.parent.qualname == fi.qualname
+    same_mod = callee.parent is None and callee.module is fi.module
+    if not (nested or same_mod):
+        return False
+    return len(summarise(prog, callee).events) <= 40
+
+
+def spliced(prog: Program, fi: FuncInfo) -> Summary:
+    """The function's summary with the bodies of small synchronous helpers (nested functions and
+    same-module helpers, one level) spliced in at their call sites: parameters substituted, the
+    helper's events re-guarded by the call site's context, and later uses of the call's value
+    replaced by the helper's folded return value.  Extracting a block into a helper then leaves
+    the facts the rules look at unchanged."""
+    cached = getattr(fi, "_spliced", None)
+    if cached is not None:
+        return cached
+    base = summarise(prog, fi)
+    subst: Dict[Term, Term] = {}
+    out: List[Event] = []
+
+    def add(kind, term, node, stmt, guards, iters, tries, awaited, extra) -> Event:
+        ev = Event(len(out), kind, term, term, node, stmt, guards, iters, tries, awaited, extra)
+        out.append(ev)
+        return ev
+
+    changed = False
+    for e in base.events:
+        term = T.replace(e.term, subst) if subst else e.term
+        guards = T.replace(e.guards, subst) if subst else e.guards
+        iters = T.replace(e.iters, subst) if subst else e.iters
+        f = e.term[1] if e.kind == "call" else None
+        callee = prog.functions.get(f[1]) if f is not None and f[0] == "glob" else None
+        if callee is not None and spliceable(prog, fi, callee) and len(callee.params) == len(e.term[2]) and not e.term[3] and not any(a[0] == "star" for a in e.term[2]):
+            cs = summarise(prog, callee)
+            args = T.replace(e.term[2], subst) if subst else e.term[2]
+            mapping = {T.var(p): a for p, a in zip(callee.params, args)}
+            add(e.kind, ("call", e.term[1], args, e.term[3]), e.node, e.stmt, guards, iters, e.tries, e.awaited, dict(e.extra, spliced_call=callee.qualname))
+            for ce in cs.events:
+                if ce.kind == "return":
+                    continue
+                add(ce.kind, T.replace(ce.term, mapping), ce.node, e.stmt, guards + T.replace(ce.guards, mapping), iters + T.replace(ce.iters, mapping),
+                    e.tries + ce.tries, ce.awaited, dict(ce.extra, via=callee.qualname))
+            rv = fold_returns(cs)
+            subst[e.term] = T.replace(rv, mapping) if rv is not None else T.NONE
+            changed = True
+            continue
+        add(e.kind, term, e.node, e.stmt, guards, iters, e.tries, e.awaited, e.extra)
+    if not changed:
+        fi._spliced = base  # type: ignore[attr-defined]
+        return base
+    s = Summary(fi, out, [e for e in out if e.kind == "return"], base.env, base.locals, base.unknowns)
+    fi._spliced = s  # type: ignore[attr-defined]
+    return s
